@@ -68,6 +68,18 @@ CHECKS["C03"] = dict(
     technique="path-sensitive typestate exploration with inlining, errno-source tracking, value-range dataflow",
     design="3/C03")
 
+CHECKS["C17"] = dict(
+    text="Decides structural necessary conditions on all paths: every one of the counter stores is `+=` of a value proved non-negative on "
+         "its path (or of unsigned origin) or `++` - never an assignment or a decrease; the to_app byte increment equals the value the "
+         "receive op returns on that path (all five receive ops); the lower-layer message counters of the framing transports move only on "
+         "the frame-completion edge; each xcm.<counter> attribute is served from the slot of the same name and get_cnt returns the slot "
+         "requested; from_app only after acceptance is decided by C03. Not decided: agreement of the two endpoints' counters when idle, "
+         "and the run-time inequalities from_app >= to_lower, from_lower >= to_app (they follow from these rules plus the one-frame "
+         "discipline of C01 - argued, not checked).",
+    note=TRUSTED,
+    technique="who-may-write queries + value-range dataflow + dominance checks + table agreement",
+    design="3/C17")
+
 NOT_APPLICABLE = {}
 
 
